@@ -360,7 +360,7 @@ func (m *Model) eval(e *Expr, pos int) Res {
 	case KPars:
 		// user-implemented production: takes the next non-elided token, whatever it is
 		ne := m.nextNE(pos)
-		if m.Raw[ne].EOF {
+		if m.Raw[ne].EOF || (e.S == "R" && strings.ContainsAny(m.Raw[ne].Value, "bB")) {
 			return Res{K: NoMatch, Pos: pos}
 		}
 		m.capsSeen++
